@@ -148,6 +148,9 @@ type Raft struct {
 	// A channel used to respond to membership change requests.
 	configurationResponseCh chan Result[Configuration]
 
+	// The log index of the membership change that the response channel belongs to.
+	configurationResponseIndex uint64
+
 	// Maps ID to the state of the other nodes in the cluster.
 	// Maintained by the leader.
 	followers map[string]*follower
@@ -625,6 +628,10 @@ func (r *Raft) AddServer(
 	r.configuration = &configuration
 	r.followers[id] = &follower{nextIndex: 1}
 
+	// The future is answered once the configuration has been applied.
+	r.configurationResponseCh = configurationFuture.responseCh
+	r.configurationResponseIndex = configuration.Index
+
 	r.sendAppendEntriesToPeers()
 
 	r.logger.Debugf(
@@ -684,6 +691,10 @@ func (r *Raft) RemoveServer(id string, timeout time.Duration) Future[Configurati
 
 	// Add the configuration to the log.
 	r.appendConfiguration(&configuration)
+
+	// The future is answered once the configuration has been applied.
+	r.configurationResponseCh = configurationFuture.responseCh
+	r.configurationResponseIndex = configuration.Index
 
 	r.sendAppendEntriesToPeers()
 
@@ -1786,7 +1797,10 @@ func (r *Raft) applyLoop() {
 			case NoOpEntry:
 			case ConfigurationEntry:
 				r.applyConfiguration(entry.Data)
-				respond(r.configurationResponseCh, *r.configuration, nil)
+				if entry.Index == r.configurationResponseIndex {
+					respond(r.configurationResponseCh, *r.configuration, nil)
+					r.configurationResponseCh = nil
+				}
 			case OperationEntry:
 				responseCh := r.operationManager.pendingReplicated[entry.Index]
 				delete(r.operationManager.pendingReplicated, entry.Index)
@@ -1942,6 +1956,8 @@ func (r *Raft) becomeFollower(leaderID string, term uint64) {
 	// Cancel any pending operations.
 	r.operationManager.notifyLostLeaderShip(r.id, r.leaderID)
 	r.operationManager = newOperationManager(r.options.leaseDuration)
+	respond(r.configurationResponseCh, Configuration{}, ErrNotLeader)
+	r.configurationResponseCh = nil
 
 	r.logger.Infof("entered the follower state: term = %d", r.currentTerm)
 }
